@@ -108,6 +108,10 @@ pub struct C08 {
     pub skip: usize,
     pub limit: Option<usize>,
     pub variations: Vec<Variation>,
+    /// every instance except the reference ones follows the call pattern of the Python trainer:
+    /// iter(loader) once (to read min_items), then set_epoch / set_fast_forward, then iter(loader) again
+    #[serde(default)]
+    pub trainer_pattern: bool,
 }
 
 fn tok_cfg(t: &Tok) -> TokenizerConfig {
@@ -473,6 +477,7 @@ impl Scenario for C08 {
             skip,
             limit,
             variations,
+            trainer_pattern: rng.chance(0.5),
         }
         .with_batch(&mut rng)
     }
@@ -508,6 +513,7 @@ impl Scenario for C08 {
             + (self.skip > 0) as u64
             + self.limit.is_some() as u64
             + self.epoch as u64
+            + self.trainer_pattern as u64
     }
 
     fn shrink(&self) -> Vec<Self> {
@@ -617,6 +623,12 @@ impl Scenario for C08 {
         if self.epoch > 0 {
             push(&|c| {
                 c.epoch = 0;
+                true
+            });
+        }
+        if self.trainer_pattern {
+            push(&|c| {
+                c.trainer_pattern = false;
                 true
             });
         }
@@ -811,6 +823,10 @@ impl Exec<'_> {
         let ff = inst.ff;
         let crash_after = inst.crash_after;
         let reiterate_after = inst.reiterate_after;
+        let pre_iter = sc.trainer_pattern && !inst.label.starts_with('R');
+        if pre_iter {
+            self.stats.fault("iter_called_before_set_epoch_and_fast_forward");
+        }
         type Slot = Arc<Mutex<(Vec<Vec<String>>, Option<String>)>>;
         let slot: Slot = Arc::new(Mutex::new((vec![], None)));
         let slot2 = slot.clone();
@@ -822,6 +838,15 @@ impl Exec<'_> {
                     return;
                 }
             };
+            if pre_iter {
+                // what the trainer does before it knows where to resume
+                if let Err(e) = drv.iter() {
+                    slot2.lock().unwrap().1 = Some(format!("first iter: {e:#}"));
+                    return;
+                }
+                let _ = drv.min_items();
+                rt::log(Kind::Fault, 7, 0);
+            }
             drv.set_epoch(epoch);
             drv.set_fast_forward(ff);
             if let Err(e) = drv.iter() {
